@@ -79,6 +79,7 @@ let () = iter_lines (fun line ->
       let scans = match scanmode with
         | 2 -> List.map (fun i -> [i]) idx
         | 3 when nc >= 2 -> [[0]; List.tl idx]
+        | 4 -> let rec grp l = if l = [] then [] else take 3 l :: grp (drop 3 l) in grp idx
         | _ -> [idx] in
       let results = List.map (fun comps ->
           let (psv, pt) = List.nth pp (List.hd comps) in
